@@ -2,6 +2,7 @@
 Generated class families (real modules in a scratch dir) x specs, real parse_args/parse_object + instantiate_classes
 vs Model/C14ClassSpec.v vs Spec/C14Spec.v (judged inside Coq)."""
 import json
+import os
 
 from tie.framework import g_Z, g_bool, g_list, g_nat, g_opt, g_pair, g_str, run_impl_parallel
 
@@ -13,13 +14,18 @@ RULE = ("seeded random class families in one generated module (4-8 classes: root
         "{class_path, init_args, dict_kwargs} (valid / wrong class / abstract / non-class / missing import / unknown or "
         "ill-typed init_args), short forms (name only, init_args without class_path, bare dict, dotted "
         "--x.k / --x.init_args.k / nested --x.p.k / --x.dict_kwargs.k) each run together with its explicit twin, "
-        "class changes between argv items (top level and nested), argument defaults, parse_object channel; "
+        "class changes between argv items (top level and nested, a quarter of them with dict_kwargs on both sides), "
+        "argument defaults, parse_object channel; plus 23 hand-made cases in every run (dotted null two levels down, "
+        "functions with related/unrelated return type, same-named parameter of another type across a class change, "
+        "dict_kwargs naming a parameter, abstract declared type, two-level nested construction); "
         "non-trivial = accepted with >=1 explicit init_arg or >=2 steps, or rejected for a reason other than a missing "
         "import; distinct = distinct (family, declared type, default, steps, observation)")
 TRUSTED = [
     "Coq 8.16.1 kernel + vm_compute",
     "tie/impl/c14_classes.py (module writer, constructor log by object id, canonicalisation) and the Gallina printer",
-    "hand-written model coq/Model/C14ClassSpec.v, tied by per-case agreement evaluated inside Coq",
+    "hand-written model coq/Model/C14ClassSpec.v (adapt / inst, in the shape of adapt_typehints' subclass branch, "
+    "adapt_class_type, subclass_spec_as_namespace, resolve_class_path_by_name, discard_init_args_on_class_path_change, "
+    "instantiate_classes), tied by per-case agreement evaluated inside Coq",
     "CPython class creation/import/call binding for the generated modules; inspect.signature",
 ]
 ASSUMPTIONS = [
@@ -28,9 +34,44 @@ ASSUMPTIONS = [
     "string values are identifiers that YAML loads as str (no numeric-looking strings); null only for Optional[Class]",
     "parameter types int / str / Class / Optional[Class]; List/Dict/Union-of-class parameters, protocols, "
     "Callable[..., Class] and custom instantiators are not generated",
+    "dict_kwargs are, as documented (DOCUMENTATION.rst 'Unresolved parameters': 'arguments that will not be validated "
+    "during parsing, but will be used for class instantiation'), outside the validity claim: a TypeError of the "
+    "prescribed call Class(**init_args, **dict_kwargs) caused by a dict_kwargs key the callable cannot take is not "
+    "counted against the property; any other TypeError on an accepted spec is",
+    "model fuel: adapt/inst run with FUEL = 40 levels of nesting (generated depth <= 5); the theorems are stated for "
+    "every fuel and exclude OutOfFuel by hypothesis (depth v < n) or by concluding from an Ok result",
 ]
 EXHAUSTIVE = {"quick": False, "thorough": False}
-FINDING_CLASSES = {1: "dict-kwargs-survive-class-change", 2: "dict-kwargs-not-validated", 3: "nested-null-restringified"}
+FINDING_CLASSES = {1: "nested-null-restringified"}
+# "judge": model of the code as it is (finding class 1 open). After fixes/C14-nested-null-restringified.patch has been
+# applied to /repo set this to "judge_fixed" (model with the NestedArg value handed down unchanged, no finding class).
+JUDGE = os.environ.get("C14_JUDGE", "judge")
+META = {
+    "level_text": "Proved in Coq for ALL well-formed class families, declared types, defaults and argv sequences of the model "
+                  "(coq/Properties/C14.v): C14_accepted_is_subclass_and_valid — every value parse accepts names a class that "
+                  "is a subclass of the declared type (or a function returning one) and its init_args are valid for that very "
+                  "callable (every key a parameter, every value of the parameter's type recursively, required parameters "
+                  "present); C14_instantiate_exact — whenever instantiation succeeds the constructor log has one call per spec "
+                  "node, children are built first and the returned object is exactly the one the configuration denotes (named "
+                  "class, init_args updated by dict_kwargs, nested objects passed); C14_accepted_builds_configured_object — an "
+                  "accepted spec without abstract classes whose dict_kwargs go to **kwargs callables instantiates without "
+                  "TypeError and yields that object. C14_dotted_null_refuted exhibits the one finding (dotted sub-option with "
+                  "null two levels down is rejected while the explicit form is accepted). The Gallina model is tied to the real "
+                  "parse_args/parse_object + instantiate_classes on generated class families written to real modules (1800 "
+                  "cases quick, 17k thorough); model agreement, spec agreement and the explicit-form twin are judged inside Coq.",
+    "level_note": "Partial: short-form = explicit-form (S3) is NOT a theorem; it is checked per case by running each case and "
+                  "its explicit twin (computed by Spec.expand_steps, re-computed in Coq) through the implementation; that every "
+                  "object is handed on once (no aliasing) and that a fully explicit valid spec is accepted (S4) are likewise "
+                  "only checked per case. dict_kwargs are treated as documented (not validated): a TypeError caused only by a "
+                  "dict_kwargs key the callable cannot take is allowed by the spec. Trusted: Coq kernel/VM; faithfulness of the "
+                  "hand-written model outside the generated cases (the clone/update choreography between adapt_class_type, "
+                  "ActionTypeHint.__call__ and merge_config is collapsed to its net effect); the harness; import_object / "
+                  "get_import_path for a single generated module; List/Dict/Union-of-class parameters, protocols, "
+                  "Callable[..., Class] and custom instantiators are outside the modelled space. No axioms.",
+    "technique": "Rocq proof by induction on the model's recursion fuel over a structural validity predicate (two-pass "
+                 "finalize: defaults pass then validation pass) and by a log-extension invariant for instantiate; "
+                 "vm_compute witnesses; randomized correspondence on generated class families judged in Coq",
+}
 
 PNAMES = ["a", "b", "c", "d", "e", "n", "m"]
 STRS = ["abc", "xy", "foo", "bar", "q"]
@@ -365,6 +406,10 @@ def gen_cases_for_family(rng, fam, ncases):
         elif kind == "change":
             t1 = gen_tree(rng, fam, base, clean=True)
             t2 = gen_tree(rng, fam, base, clean=rng.random() < 0.8)
+            if rng.random() < 0.25:  # dict_kwargs before and after the change
+                for t, key in ((t1, "zz"), (t2, "yy")):
+                    if not t["dk"]:
+                        t["dk"].append([key, {"i": rng.randint(0, 30)}])
             steps = steps_for(rng, t1, [], True) if rng.random() < 0.6 else [{"raw": tree_raw(rng, t1, 0.5)}]
             r = rng.random()
             if r < 0.4:
@@ -404,9 +449,83 @@ def gen_cases_for_family(rng, fam, ncases):
     return cases
 
 
+def _P(name, ty, d=None):
+    return {"name": name, "ty": ty, "def": d}
+
+
+def _K(name, parents, params, abstract=False, varkw=False):
+    return {"name": name, "parents": parents, "params": params, "abstract": abstract, "varkw": varkw}
+
+
+def fixed_cases():
+    """hand-made cases that are part of every run: the known finding and the interactions the random generator reaches rarely"""
+    out = []
+
+    def add(fam, base, steps, dflt=None, channel="argv"):
+        c = {"fam": fam, "base": base, "dflt": dflt, "steps": steps, "channel": channel, "twin": None}
+        c["twin"] = _twin(c)
+        out.append(c)
+
+    I, S, N = (lambda i: {"i": i}), (lambda s: {"s": s}), {"null": 1}
+    D = lambda *kv: {"d": [list(x) for x in kv]}  # noqa: E731
+    # dotted null two levels down (known finding nested-null-restringified) and its neighbours
+    f = {"mod": "jvfix0", "funcs": [], "consts": ["K0"], "classes": [
+        _K("Leaf", [], [_P("n", ["int"], I(1))]),
+        _K("Mid", [], [_P("leaf", ["opt", "Leaf"], N), _P("d", ["int"], I(0))]),
+        _K("Top", [], [_P("mid", ["opt", "Mid"], N)])]}
+    add(f, "Top", [{"nested": ["mid"], "raw": S("Mid")}, {"nested": ["mid", "leaf"], "raw": N}])
+    add(f, "Top", [{"nested": ["mid"], "raw": S("Mid")}, {"nested": ["mid", "leaf"], "raw": S("Leaf")},
+                   {"nested": ["mid", "leaf", "n"], "raw": I(4)}])
+    add(f, "Top", [{"nested": ["mid"], "raw": S("Mid")}, {"nested": ["mid"], "raw": N}])
+    add(f, "Top", [{"nested": ["init_args", "mid"], "raw": D(("class_path", S("Mid")), ("init_args", D(("leaf", N))))}])
+    # a function whose return type is unrelated to the declared type / related to it
+    f = {"mod": "jvfix1", "consts": ["K0"], "classes": [
+        _K("Base", [], [_P("a", ["int"], I(1))]), _K("Sub", ["Base"], [_P("a", ["int"], I(2)), _P("b", ["str"], S("q"))]),
+        _K("Other", [], [_P("a", ["int"], I(3))])],
+        "funcs": [{"name": "make0", "ret": "Other", "params": [_P("a", ["int"], I(13))]},
+                  {"name": "make1", "ret": "Sub", "params": [_P("a", ["int"], I(12))]}]}
+    for fn in ("make0", "make1"):
+        add(f, "Base", [{"raw": D(("class_path", S("jvfix1." + fn)), ("init_args", D(("a", I(5)))))}])
+        add(f, "Base", [{"raw": S("jvfix1." + fn)}, {"nested": ["a"], "raw": I(6)}])
+    add(f, "Base", [{"raw": S("Other")}])
+    add(f, "Base", [{"raw": S("jvfix1.K0")}])
+    # class change: same-named parameter of another type is discarded, same type survives; dict_kwargs on both sides
+    f = {"mod": "jvfix2", "funcs": [], "consts": ["K0"], "classes": [
+        _K("Base", [], [], abstract=True),
+        _K("A", ["Base"], [_P("a", ["int"], I(1)), _P("c", ["int"], I(2))], varkw=True),
+        _K("B", ["Base"], [_P("a", ["str"], S("q")), _P("c", ["int"], I(3))], varkw=True),
+        _K("C", ["Base"], [_P("c", ["int"])])]}
+    add(f, "Base", [{"raw": S("A")}, {"nested": ["a"], "raw": I(5)}, {"nested": ["c"], "raw": I(7)}, {"raw": S("B")}])
+    add(f, "Base", [{"raw": D(("class_path", S("A")), ("init_args", D(("a", I(5)), ("c", I(7)))))},
+                    {"raw": D(("class_path", S("jvfix2.B")))}])
+    add(f, "Base", [{"raw": D(("class_path", S("jvfix2.A")), ("dict_kwargs", D(("zz", I(1)))))},
+                    {"raw": D(("class_path", S("jvfix2.B")), ("dict_kwargs", D(("yy", I(2)))))}])
+    add(f, "Base", [{"raw": D(("class_path", S("jvfix2.A")), ("dict_kwargs", D(("zz", I(1)))))},
+                    {"raw": D(("dict_kwargs", D(("yy", I(2)))))}])
+    add(f, "Base", [{"nested": ["c"], "raw": I(1)}])                      # abstract declared type: no implicit class_path
+    add(f, "Base", [{"raw": S("C")}])                                      # required parameter missing
+    add(f, "Base", [{"raw": S("Base")}])                                   # abstract class by name
+    add(f, "Base", [{"raw": S("jvfix2.Base")}])                            # abstract class by path
+    # a dict_kwargs key that names a parameter is moved to init_args and validated
+    add(f, "Base", [{"raw": D(("class_path", S("jvfix2.A")), ("dict_kwargs", D(("a", S("abc")))))}])
+    add(f, "Base", [{"raw": D(("class_path", S("jvfix2.A")), ("dict_kwargs", D(("a", I(9)), ("zz", I(1)))))}])
+    add(f, "Base", [{"raw": D(("class_path", S("jvfix2.A")), ("dict_kwargs", D(("a", I(9)))))}], channel="object")
+    # nested class arguments two levels deep, built children first
+    f = {"mod": "jvfix3", "funcs": [], "consts": ["K0"], "classes": [
+        _K("Leaf", [], [_P("n", ["int"], I(1))]),
+        _K("Pair", [], [_P("l", ["cls", "Leaf"]), _P("r", ["cls", "Leaf"])]),
+        _K("Root", [], [_P("p", ["cls", "Pair"]), _P("q", ["opt", "Pair"], N)])]}
+    leaf = lambda n: D(("class_path", S("jvfix3.Leaf")), ("init_args", D(("n", I(n)))))  # noqa: E731
+    pair = lambda a, b: D(("class_path", S("jvfix3.Pair")), ("init_args", D(("l", leaf(a)), ("r", leaf(b)))))  # noqa: E731
+    add(f, "Root", [{"raw": D(("class_path", S("jvfix3.Root")), ("init_args", D(("p", pair(1, 1)), ("q", pair(1, 1)))))}])
+    add(f, "Root", [{"nested": ["p"], "raw": S("Pair")}, {"nested": ["p", "l"], "raw": S("Leaf")},
+                    {"nested": ["p", "r"], "raw": S("Leaf")}, {"nested": ["p", "r", "n"], "raw": I(3)}])
+    return out
+
+
 def generate(rng, tier):
-    nfam, per = (150, 12) if tier == "quick" else (2500, 14)
-    cases = []
+    nfam, per = (150, 12) if tier == "quick" else (1200, 14)
+    cases = fixed_cases()
     for i in range(nfam):
         fam = gen_family(rng, i)
         cases += gen_cases_for_family(rng, fam, per)
@@ -438,7 +557,47 @@ def observe(cases):
         for idxs, rb in zip(mine, r):
             for i, o in zip(idxs, rb):
                 out[i] = o
+    if len(cases) >= 200:
+        _LAST["cases"], _LAST["obs"] = cases, out
     return out
+
+
+_LAST = {}
+
+
+def search(rng, tier, broken):
+    """Called by the framework when a proof or the tie broke and no spec failure was reported: the failing input is then
+    a case on which the implementation no longer behaves like the verified model (the theorems stop speaking about it)."""
+    import sys
+
+    from tie import framework as fw
+
+    mod = sys.modules[__name__]
+    cases, obs = _LAST.get("cases"), _LAST.get("obs")
+    if cases is None:
+        cases = generate(rng, "quick")
+        obs = observe(cases)
+    bm, bi, bo = fw.judge_cases(mod, cases, obs, tag="x")
+    known = fw.load_known_findings(PROP)
+    spec_bad = set(bi) | {i for i, k in bo if FINDING_CLASSES.get(k) not in known}   # listed findings are not news
+    bad = sorted(spec_bad) or sorted(bm)
+    if not bad:
+        return None
+    kind_model = not spec_bad
+
+    def still(cands):
+        o = observe(cands)
+        m, b_in, b_out = fw.judge_cases(mod, cands, o, tag="y")
+        hit = set(m) if kind_model else set(b_in) | {i for i, k in b_out if FINDING_CLASSES.get(k) not in known}
+        return [i in hit for i in range(len(cands))]
+
+    c = fw.shrink(mod, cases[bad[0]], still, rounds=8)
+    o = observe([c])[0]
+    ex = describe(c, o)
+    ex["note"] = ("the implementation's observable behaviour on this input (accept/reject, normalised spec, constructor log) "
+                  "differs from the verified model coq/Model/C14ClassSpec.v" if kind_model else
+                  "the observation contradicts the reference semantics coq/Spec/C14Spec.v")
+    return {"case": c, "observed": o, "explain": ex}
 
 
 # ------------------------------------------------------------------------------------------------
@@ -599,7 +758,7 @@ def shrink(case):
             c = dict(case, steps=st[:i] + st[i + 1:])
             c["twin"] = _twin(c)
             yield c
-    if case["dflt"] is not None:
+    if case["dflt"] is not None and st:
         c = dict(case, dflt=None)
         c["twin"] = _twin(c)
         yield c
